@@ -37,7 +37,12 @@ func c20Package(rng *rand.Rand, idx int) rcase {
 			pi.Params = append(pi.Params, dialect.Param{Name: name, In: "path", Required: true, Schema: sc})
 		}
 		pi.Raw = raw
-		o := &dialect.Op{Method: []string{"GET", "POST", "PUT"}[rng.Intn(3)], Responses: []dialect.Response{echo}}
+		resp := echo
+		if rng.Intn(2) == 0 {
+			// a raw (non-JSON) body next to the echo header: the handler streams a body derived from the digest
+			resp.Content, resp.Schema = "application/octet-stream", &dialect.Schema{Type: "string", Format: "binary"}
+		}
+		o := &dialect.Op{Method: []string{"GET", "POST", "PUT"}[rng.Intn(3)], Responses: []dialect.Response{resp}}
 		for k := 0; k < 1+rng.Intn(4); k++ {
 			in := []string{"query", "query", "header"}[rng.Intn(3)]
 			sc := paramSchemas[rng.Intn(len(paramSchemas))]()
